@@ -236,11 +236,14 @@ func (c *Cache[K, V]) MapToCache(m map[K]V, d time.Duration) error {
 
 // IsExpired checks if a cache item is expired.
 func (c *Cache[K, V]) IsExpired(key K) bool {
-	item, err := c.Get(key)
-	if item != nil && err != nil {
-		if item.expiration > time.Now().UnixNano() {
-			return true
-		}
+	c.mu.RLock()
+	item, ok := c.items[key]
+	c.mu.RUnlock()
+
+	// Get never returns an item together with an error, so the
+	// stored item has to be inspected directly.
+	if ok && item.expiration > 0 {
+		return time.Now().UnixNano() > item.expiration
 	}
 	return false
 }
